@@ -14,6 +14,7 @@ C13_STATICS = {
 # C13 R13b: fields of rules / helper objects that starting_new_file does not reset, each emptied when its
 # construct closes (so quiescent at the end of any balanced token stream, C04) or rewritten before it is read
 C13_FIELDS = {
+    "RuleMd035.__actual_style": "reset (to empty) under the 'consistent' style; under every other style the field holds the configured style, is non-empty, and the only run-time write sits in the branch taken when the field is empty",
     "RuleMd022.__start_heading_blank_line_count": "assigned at every heading start before the only place that reads it (the matching heading end)",
     "RuleMd027.__delayed_bleading_fixes": "entries are keyed by the open block-quote token and deleted when that block quote ends",
     "RuleMd031.__fix_requests": "filled and drained within one token's handling in fix mode (cleared after the requests are applied)",
